@@ -15,9 +15,32 @@
          with (ii): a Commit that changes a query's result closes the channel returned with the earlier answer
          (C06_changed_result_closes_query_channel), also over any chain of committed transactions
          (C06_changed_result_closes_query_channel_history).
-   Not covered: handles taken from a write transaction's own uncommitted tree (Txn.Clone inside the WriteTxn);
-   the link "the set closed by the tree's Notify is closed in the notify step of the committing actor" is the
-   modelling correspondence between DB/Model.v a_notify and Part/Model.v txn_notify (write_txn.go Commit). *)
+   (iv)  Table/LpmWatch.v (the LPM index's channel mechanism, lpm_index.go): one channel per committed index version; a
+         write transaction one of whose writes gets past its guard turns the index entry into an lpmIndexTxn, whose commit
+         allocates a fresh channel and whose notify closes the previous version's; no missed change over histories of
+         committed and aborted transactions (C06_lpm_watch_no_missed_change), also for a query made inside the write
+         transaction (C06_lpm_watch_inside_txn); an aborted transaction closes nothing (C06_lpm_abort_closes_nothing);
+         only committed touching transactions close channels; published channels open, no double close.
+   (v)   Part/TxnHandles.v + Table/WatchInsideTxn.v: handles taken INSIDE a write transaction on its own uncommitted tree.
+         For every query that freezes the tree first (Clone / Txn.Prefix: list, prefix, lowerBound, all, get on a non-unique
+         index) the channel handed out is closed by the transaction's own Notify if a later operation of the same
+         transaction changes a covered key, otherwise it is closed or still the channel the committed tree returns, and
+         the history theorem applies from there (C06_handle_inside_txn, C06_handle_inside_txn_history, composed with the
+         table level: C06_changed_result_closes_inside_txn_channel). For Txn.Get without a bump (get on a unique index)
+         the same holds iff the channel is not that of an inner node private to the transaction at hand-out
+         (C06_get_handle_inside_txn); otherwise it is false: C06_get_handle_inside_txn_own_later_write_refuted (an
+         observation outside the property's quantifier: handles on snapshots / committed trees, changes by LATER
+         transactions; later transactions do close that channel: C06_get_handle_inside_txn_witness_later_closes).
+   (vi)  DB/NotifyLink.v: the link between (i) and (iii) as a refinement: tv_watch = the root channel of the table's primary
+         index; the Part-level Commit + Notify of the primary index's transaction maps, through the abstraction, to the
+         DB-level write of the table (C06_table_commit_refines_db_write); in every reachable DB state the notify queue
+         contains the old version's channel iff the table is in `writes` (C06_db_apply_writes_notify), is carried unchanged
+         to the notify step and closed there (C06_db_notify_queue_carried_and_closed); together, under "t in writes <-> the
+         primary index's part.Txn is dirty": C06_table_channel_is_primary_root_channel.
+   Not covered: the general form of "a channel handed out by Txn.Get for an absent key below a txn-private node is closed by
+   the next LATER transaction that changes the key" (shown for the witness only); the correspondence "t in writes <-> the
+   primary index's part.Txn is dirty" is a hypothesis of (vi) (in Go a failed CompareAndSwap / CompareAndDelete inserts and
+   reverts on the primary tree: dirty without a net change, a permitted extra wake-up). *)
 From Coq Require Import Arith PeanoNat.
 From SV Require Import DB.Model DB.Proofs.
 Open Scope N_scope.
@@ -288,4 +311,364 @@ Proof.
   apply (C06_changed_result_closes_query_channel o_rev (init_db 1) (init_db 1) 0%nat 0%nat ex_q INn _ ex_t ex_ws ex_T 10 ex_ops
            Hq S HI Ea Ea' Hs).
   cbn [run_query ex_q]. rewrite L1, L2. discriminate.
+Qed.
+
+(* ==== LPM indexes: the index-wide channel (Table/LpmWatch.v; lpm_index.go) =====================================
+   lver: a committed table entry with the `watch` channels of its two LPM indexes; a history txs of write
+   transactions (writes, then Commit = true / Abort = false); lrun: the committed version after the history;
+   lclosed: per transaction, the channels closed by the notify() calls of its Commit. An index entry becomes an
+   lpmIndexTxn (whose commit allocates a fresh channel for the new version and whose notify closes the previous
+   version's channel) as soon as one write operation of the transaction gets past its guard (tw_touches). *)
+From SV Require Import Table.LpmWatch.
+
+(* (2) NO MISSED CHANGE: if the answer of an LPM query differs between two committed versions, the channel handed
+   out with the older version was closed by the notify of one of the transactions in between *)
+Theorem C06_lpm_watch_no_missed_change : forall d d' tab tab' q u, lq_index q = Some u ->
+  forall txs v next,
+  run_query d tab q (lv_tab v) <> run_query d' tab' q (lv_tab (fst (lrun (v, next) txs))) ->
+  exists cl, In cl (lclosed (v, next) txs) /\ In (lv_chan u v) cl.
+Proof. exact lpm_watch_no_missed_change. Qed.
+Print Assumptions C06_lpm_watch_no_missed_change.
+
+(* the same for a query made INSIDE a write transaction (after the writes ws1): it returns the channel of the
+   committed version; if later writes ws2 of the same transaction change the answer, its Commit closes the channel *)
+Theorem C06_lpm_watch_inside_txn : forall d d' tab tab' q u v next ws1 ws2, lq_index q = Some u ->
+  let x1 := lx_writes (lx_begin v) ws1 in
+  let x2 := lx_writes x1 ws2 in
+  run_query d tab q (lx_cur x1) <> run_query d' tab' q (lx_cur x2) ->
+  In (lx_watch u x1) (snd (lx_commit next x2)) /\
+  lv_tab (fst (fst (lx_commit next x2))) = lx_cur x2.
+Proof. exact lpm_watch_inside_txn. Qed.
+Print Assumptions C06_lpm_watch_inside_txn.
+
+(* NO SPURIOUS-ABORT WAKE-UP: an aborted transaction closes nothing; version, channels and allocator stay *)
+Theorem C06_lpm_abort_closes_nothing : forall v next ws,
+  lstep (v, next) (ws, false) = (v, next, []).
+Proof. exact lpm_abort_closes_nothing. Qed.
+Print Assumptions C06_lpm_abort_closes_nothing.
+
+(* a channel is closed only by a COMMITTED transaction one of whose writes got past its guard, and it is a channel
+   of the version that transaction started from *)
+Theorem C06_lpm_closed_only_by_touching_commit : forall txs v next w,
+  In w (concat (lclosed (v, next) txs)) ->
+  exists pre ws post, txs = pre ++ (ws, true) :: post /\
+    let vn := lrun (v, next) pre in
+    lx_touched (lx_writes (lx_begin (fst vn)) ws) = true /\ (w = lv_wu (fst vn) \/ w = lv_wn (fst vn)).
+Proof. exact lpm_closed_only_by_touching_commit. Qed.
+Print Assumptions C06_lpm_closed_only_by_touching_commit.
+
+(* the channels of the current committed version are open; no channel is closed twice *)
+Theorem C06_lpm_published_open_nodup : forall txs v next,
+  lv_wu v < next -> lv_wn v < next -> lv_wu v <> lv_wn v ->
+  (forall u w, In w (concat (lclosed (v, next) txs)) -> w <> lv_chan u (fst (lrun (v, next) txs))) /\
+  NoDup (concat (lclosed (v, next) txs)).
+Proof.
+  intros txs v next W1 W2 W3. split.
+  - intros u w. now apply lpm_published_open.
+  - now apply lpm_closed_nodup.
+Qed.
+Print Assumptions C06_lpm_published_open_nodup.
+
+(* NON-VACUITY: version lx_v0 (object a under LPM key 10.0/16, channels 1 and 2), query List(10.0/16) on the
+   non-unique LPM index; history: aborted insert of b; committed failed CompareAndSwap; committed insert of b (same
+   LPM key); committed delete of an absent object. The answer changes from [a] to [a; b]; only the third transaction
+   closes channels: 1 and 2, the reader's channel is 2; the new version hands out channel 4. *)
+Example C06_lpm_nonvacuous :
+  lq_index lx_q = Some false /\
+  run_query (init_db 1) 0 lx_q (lv_tab lx_v0) = OutObjs [mkO lx_a 1] /\
+  run_query (init_db 1) 0 lx_q (lv_tab (fst (lrun (lx_v0, 3) lx_hist))) = OutObjs [mkO lx_a 1; mkO lx_b 2] /\
+  lclosed (lx_v0, 3) lx_hist = [[]; []; [1; 2]; []] /\
+  lv_chan false lx_v0 = 2 /\
+  lv_chan false (fst (lrun (lx_v0, 3) lx_hist)) = 4 /\ snd (lrun (lx_v0, 3) lx_hist) = 5.
+Proof. exact lpm_watch_nonvacuous. Qed.
+
+Example C06_lpm_nonvacuous_by_theorem :
+  exists cl, In cl (lclosed (lx_v0, 3) lx_hist) /\ In (lv_chan false lx_v0) cl.
+Proof.
+  destruct lpm_watch_nonvacuous as (Hq & L1 & L2 & _).
+  apply (C06_lpm_watch_no_missed_change (init_db 1) (init_db 1) 0%nat 0%nat lx_q false Hq).
+  rewrite L1, L2. discriminate.
+Qed.
+
+Example C06_lpm_abort_nonvacuous :
+  lx_touched (lx_writes (lx_begin lx_v0) [TWInsert lx_b]) = true /\
+  lstep (lx_v0, 3) ([TWInsert lx_b], false) = (lx_v0, 3, []) /\
+  snd (lstep (lx_v0, 3) ([TWInsert lx_b], true)) = [1; 2].
+Proof. vm_compute. repeat split; reflexivity. Qed.
+
+Example C06_lpm_inside_nonvacuous :
+  let x1 := lx_writes (lx_begin lx_v0) [TWDelete [120]] in
+  let x2 := lx_writes x1 [TWInsert lx_b] in
+  lx_touched x1 = false /\ lx_watch false x1 = 2 /\
+  run_query (init_db 1) 0 lx_q (lx_cur x1) <> run_query (init_db 1) 0 lx_q (lx_cur x2) /\
+  snd (lx_commit 3 x2) = [1; 2].
+Proof. exact lpm_watch_inside_nonvacuous. Qed.
+
+(* ==== handles taken INSIDE a write transaction (Part/TxnHandles.v, Table/WatchInsideTxn.v) =======================
+   part_index.go on a partIndexTxn: list / prefix / lowerBound / all take `snapshot := tx.Clone()` (txnID++) and run the
+   Tree operation on the snapshot; get on a non-unique index calls tx.Prefix (txnID++): txn_query_clone. get on a unique
+   index calls tx.Get (NO txnID bump): txn_query_get. t: the committed tree the part.Txn began on; ops1: its operations
+   before the query; ops2: its operations after the query; then Commit, Notify. *)
+From SV Require Import Part.TxnHandles Table.WatchInsideTxn.
+
+(* (1) a channel handed out inside the transaction by a query that freezes the tree is closed by the transaction's own
+   Notify if a LATER operation of the same transaction changes a covered key (the committed tree differs from the tree
+   at query time at that key); otherwise it is closed or it is still the channel the committed tree returns for the
+   handle, and the committed tree satisfies tree_inv: C06_changed_result_closes_query_channel_history applies from there *)
+Theorem C06_handle_inside_txn : forall t next ops1 ops2 h,
+  tree_inv t next ->
+  let x := fold_left wstep ops1 (tree_txn t next) in
+  let a := snd (txn_query_clone x h) in
+  let xe := fold_left wstep ops2 (fst (txn_query_clone x h)) in
+  a <> 0 /\
+  ((exists K, h_covers h K = true /\ om_get K (abs_tree (snd (txn_commit xe))) <> om_get K (abs_txn x)) ->
+   In a (snd (txn_notify xe))) /\
+  (In a (snd (txn_notify xe)) \/ h_chan (snd (txn_commit xe)) h = a) /\
+  tree_inv (snd (txn_commit xe)) (s_next (t_st (fst (txn_commit xe)))).
+Proof. exact handle_inside_txn. Qed.
+Print Assumptions C06_handle_inside_txn.
+
+(* ... over the transaction's own rest and any chain of later transactions *)
+Theorem C06_handle_inside_txn_history : forall t next ops1 ops2 h txns,
+  tree_inv t next ->
+  let x := fold_left wstep ops1 (tree_txn t next) in
+  let a := snd (txn_query_clone x h) in
+  let xe := fold_left wstep ops2 (fst (txn_query_clone x h)) in
+  let T' := snd (txn_commit xe) in
+  let next' := s_next (t_st (fst (txn_commit xe))) in
+  (exists K, h_covers h K = true /\ om_get K (abs_tree (fst (chain_end T' next' txns))) <> om_get K (abs_txn x)) ->
+  In a (snd (txn_notify xe)) \/ exists cl, In cl (chain_closed T' next' txns) /\ In a cl.
+Proof. exact handle_inside_txn_history. Qed.
+Print Assumptions C06_handle_inside_txn_history.
+
+(* Txn.Get without a bump: the same, PROVIDED the channel handed out is not the channel of an inner node private to
+   the transaction at hand-out (root_priv_ne); this holds e.g. when the channel is older than the transaction *)
+Theorem C06_get_handle_inside_txn : forall t next ops1 ops2 k,
+  tree_inv t next ->
+  let x := fold_left wstep ops1 (tree_txn t next) in
+  let a := snd (txn_query_get x k) in
+  let xe := fold_left wstep ops2 (fst (txn_query_get x k)) in
+  (a < next -> root_priv_ne x a) /\
+  (root_priv_ne x a ->
+   a <> 0 /\
+   ((om_get k (abs_tree (snd (txn_commit xe))) <> om_get k (abs_txn x)) -> In a (snd (txn_notify xe))) /\
+   (In a (snd (txn_notify xe)) \/ snd (tree_get (snd (txn_commit xe)) k) = a) /\
+   tree_inv (snd (txn_commit xe)) (s_next (t_st (fst (txn_commit xe))))).
+Proof.
+  intros t next ops1 ops2 k HI. cbv zeta. split.
+  - exact (get_inside_txn_old_channel t next ops1 k HI).
+  - exact (get_inside_txn t next ops1 ops2 k HI).
+Qed.
+Print Assumptions C06_get_handle_inside_txn.
+
+(* WITHOUT the proviso the statement is false. Witness: New; Txn; Insert [1;2]; Insert [1;3] (creates the node4 with prefix
+   [1]: private to the txn, fresh channel 4); Get [1;4]: not found, channel 4; Insert [1;4] mutates the node in place
+   (cloneNode returns n when n.txnID == txn.txnID; its channel is not recorded); Commit; Notify closes only the old
+   root channel; Get [1;4] on the committed tree returns another channel. Reproduced on the Go code (part.Txn and
+   Table.GetWatch on a WriteTxn with a unique index). OUTSIDE the quantifier of C06/C12, which speak of handles taken on
+   snapshots / committed trees and of changes by LATER transactions: see the next theorem. *)
+Theorem C06_get_handle_inside_txn_own_later_write_refuted :
+  exists t next ops1 ops2 k, tree_inv t next /\
+    let x := fold_left wstep ops1 (tree_txn t next) in
+    let a := snd (txn_query_get x k) in
+    let xe := fold_left wstep ops2 (fst (txn_query_get x k)) in
+    a <> 0 /\ fst (txn_get x k) = None /\
+    om_get k (abs_tree (snd (txn_commit xe))) <> om_get k (abs_txn x) /\
+    ~ In a (snd (txn_notify xe)) /\ snd (tree_get (snd (txn_commit xe)) k) <> a /\
+    ~ root_priv_ne x a.
+Proof. exact get_inside_txn_refuted. Qed.
+Print Assumptions C06_get_handle_inside_txn_own_later_write_refuted.
+
+(* LATER transactions do close the witness's channel: the private node stays in the committed tree on the search path of
+   the key, its channel is the channel Prefix([1]) returns there ([1] a prefix of the key), so every later transaction,
+   and every chain of later transactions, that changes the binding of the key closes it *)
+Theorem C06_get_handle_inside_txn_witness_later_closes :
+  let a := snd (txn_query_get rf_x rf_k) in
+  let next' := s_next (t_st (fst (txn_commit rf_xe))) in
+  a = 4 /\ tree_inv rf_T' next' /\ h_chan rf_T' (HPrefix [1]) = a /\ h_covers (HPrefix [1]) rf_k = true /\
+  (forall gap ops, let xe2 := fold_left wstep ops (tree_txn rf_T' (next' + gap)) in
+     om_get rf_k (abs_tree (snd (txn_commit xe2))) <> om_get rf_k (abs_tree rf_T') -> In a (snd (txn_notify xe2))) /\
+  (forall txns, om_get rf_k (abs_tree (fst (chain_end rf_T' next' txns))) <> om_get rf_k (abs_tree rf_T') ->
+     exists cl, In cl (chain_closed rf_T' next' txns) /\ In a cl).
+Proof. exact get_inside_txn_witness_later_closes. Qed.
+Print Assumptions C06_get_handle_inside_txn_witness_later_closes.
+
+(* COMPOSED with the table level: q a watch query made inside the write transaction on the table state t1; t2 the table
+   the transaction commits; x the state of the queried index's part.Txn at query time (representing the index of t1).
+   q_freezes: every query except Get through a unique index. If q's answer on t2 differs from the answer returned, the
+   channel handed out is closed by the Notify of the transaction's Commit. *)
+Theorem C06_changed_result_closes_inside_txn_channel : forall code d d' tab tab' q ik h t1 t2 T next ops1 ops2,
+  q_handle q = Some (ik, h) -> om_sorted (index_of ik t1) -> om_sorted (index_of ik t2) ->
+  tree_inv T next ->
+  let x := fold_left wstep ops1 (tree_txn T next) in
+  abs_txn x = cmap code (index_of ik t1) ->
+  let a := snd (txn_query x q h) in
+  let xe := fold_left wstep ops2 (fst (txn_query x q h)) in
+  (q_freezes q = true \/ root_priv_ne x a) ->
+  abs_tree (snd (txn_commit xe)) = cmap code (index_of ik t2) ->
+  code_separates code (index_of ik t1) (index_of ik t2) ->
+  run_query d tab q t1 <> run_query d' tab' q t2 ->
+  a <> 0 /\ In a (snd (txn_notify (fst (txn_commit xe)))).
+Proof. exact changed_result_closes_inside_txn_channel. Qed.
+Print Assumptions C06_changed_result_closes_inside_txn_channel.
+
+(* NON-VACUITY: the witness's transaction with the Get made through a freezing query: channel 4 is closed *)
+Example C06_handle_inside_txn_nonvacuous :
+  let x := fold_left wstep rf_ops1 (tree_txn rf_t 2) in
+  let a := snd (txn_query_clone x (HGet rf_k)) in
+  let xe := fold_left wstep rf_ops2 (fst (txn_query_clone x (HGet rf_k))) in
+  tree_inv rf_t 2 /\ a = 4 /\ h_covers (HGet rf_k) rf_k = true /\
+  om_get rf_k (abs_tree (snd (txn_commit xe))) <> om_get rf_k (abs_txn x) /\
+  snd (txn_notify xe) = [4; 1].
+Proof. exact handle_inside_txn_nonvacuous. Qed.
+
+(* a Get inside the transaction returning a channel older than the transaction (4 < 10), then Insert of the key *)
+Example C06_get_handle_inside_txn_nonvacuous :
+  let ops0 := [WIns [1;2] 10; WIns [1;3] 11; WIns [2;1] 5] in
+  let t1 := snd (txn_commit (fold_left wstep ops0 (tree_txn rf_t 2))) in
+  let x := fold_left wstep [WIns [2;2] 7] (tree_txn t1 10) in
+  tree_inv t1 10 /\ snd (txn_get x [1;4]) = 4 /\ 4 < 10 /\ root_priv_ne x 4 /\
+  In 4 (snd (txn_notify (fold_left wstep [WIns [1;4] 12] x))).
+Proof. exact get_inside_txn_nonvacuous. Qed.
+
+(* a later transaction deleting the witness's key closes the witness's channel *)
+Example C06_witness_later_nonvacuous :
+  let next' := s_next (t_st (fst (txn_commit rf_xe))) in
+  let xe2 := fold_left wstep [WDel [1;4]] (tree_txn rf_T' (next' + 0)) in
+  om_get rf_k (abs_tree (snd (txn_commit xe2))) <> om_get rf_k (abs_tree rf_T') /\ In 4 (snd (txn_notify xe2)).
+Proof. exact get_inside_txn_witness_later_nonvacuous. Qed.
+
+(* table level: List("y") inside the write transaction, then the update that makes object a qualify, then Commit *)
+Example C06_inside_txn_table_nonvacuous :
+  let x := fold_left wstep [] (tree_txn ex_T 10) in
+  q_handle ex_q = Some (INn, HPrefix (enc [121])) /\ q_freezes ex_q = true /\
+  tree_inv ex_T 10 /\ abs_txn x = cmap o_rev (index_of INn ex_t) /\
+  abs_tree (snd (txn_commit (fold_left wstep ex_ops (fst (txn_query x ex_q (HPrefix (enc [121]))))))) =
+    cmap o_rev (index_of INn (twrun ex_t ex_ws)) /\
+  run_query (init_db 1) 0 ex_q ex_t <> run_query (init_db 1) 0 ex_q (twrun ex_t ex_ws) /\
+  snd (txn_query x ex_q (HPrefix (enc [121]))) = 4 /\
+  In 4 (snd (txn_notify (fst (txn_commit (fold_left wstep ex_ops (fst (txn_query x ex_q (HPrefix (enc [121]))))))))).
+Proof. exact inside_txn_nonvacuous. Qed.
+
+(* ==== the link between DB/Model.v's notify step and Part/Model.v's Txn.Notify (DB/NotifyLink.v) ====================
+   tv_watch of DB/Model.v is the table-wide channel: Table.AllWatch -> the primary index's all() -> tree.RootWatch()
+   (the channel the sched engine's `watch <tab>` keeps). ABSTRACTION: table_chan T = tr_rw T for the tree T of the table's
+   primary index; Rtab v T: tv_watch v = table_chan T; abs_notify T cls: the DB-level image of the per-index closed sets
+   cls of a committing table transaction (the table-wide channel if some set contains it, else nothing);
+   db_table_step id wrote nw v: what apply_writes (F1) does to the entry of ONE table (`wrote` = the table is in
+   `writes`: new version with channel nw, old channel queued on a_notify). *)
+From SV Require Import DB.NotifyLink.
+
+(* PART SIDE, a refinement: the Commit + Notify of the primary index's part.Txn (ops; others = the closed sets of the other
+   index transactions, which contain no channel of T) is, through the abstraction, the DB-level write with
+   wrote := "the part.Txn is dirty" (some operation inserted, replaced or deleted-while-present a key) and the committed
+   tree's root channel as the new version's channel: same closed set, Rtab again, fresh channel iff wrote *)
+Theorem C06_table_commit_refines_db_write : forall v T next ops others id,
+  tree_inv T next -> Rtab v T ->
+  (forall cl, In cl others -> ~ In (table_chan T) cl) ->
+  let xe := fold_left wstep ops (tree_txn T next) in
+  let T' := snd (txn_commit xe) in
+  let cls := snd (txn_notify (fst (txn_commit xe))) :: others in
+  let wrote := any_change (abs_tree T) ops in
+  let r := db_table_step id wrote (table_chan T') v in
+  t_dirty xe = wrote /\
+  (In (table_chan T) (snd (txn_notify (fst (txn_commit xe)))) <-> wrote = true) /\
+  abs_notify T cls = snd (fst r) /\
+  Rtab (fst (fst r)) T' /\
+  (wrote = true -> next <= table_chan T' /\ table_chan T' <> table_chan T /\
+                   ~ In (table_chan T') (snd (txn_notify (fst (txn_commit xe))))) /\
+  (wrote = false -> table_chan T' = table_chan T) /\
+  tree_inv T' (s_next (t_st (fst (txn_commit xe)))).
+Proof. exact table_commit_refines_db_write. Qed.
+Print Assumptions C06_table_commit_refines_db_write.
+
+(* DB SIDE, every reachable state (Good: the invariants of DB/Watch.v, C06_db_good_reachable): the apply_writes step of a
+   committing writer queues the channel of the CURRENT root version of a locked table t iff t is in `writes`; t's new
+   version gets a channel allocated by this step iff t is in `writes`, and keeps the old one otherwise *)
+Theorem C06_db_apply_writes_notify : forall ntab s i a tabs wr rg dn,
+  Good ntab s -> nth_error (s_actors s) i = Some a ->
+  a_kind a = KWriter tabs wr true rg dn -> a_pc a = PRootLoaded ->
+  exists a', nth_error (s_actors (DB.Model.step s i)) i = Some a' /\ a_pc a' = PCommitIdx /\
+    a_kind a' = a_kind a /\ a_locks a' = a_locks a /\
+    s_root (DB.Model.step s i) = s_root s /\ s_closed (DB.Model.step s i) = s_closed s /\
+    forall t v, In t (a_locks a) -> nth_error (s_root s) t = Some v ->
+      (In (tv_watch v) (a_notify a') <-> In t wr) /\
+      exists e, nth_error (a_entries a') t = Some e /\
+        (In t wr -> (s_nextw s <= tv_watch e)%N /\ (tv_watch e < s_nextw (DB.Model.step s i))%N) /\
+        (~ In t wr -> tv_watch e = tv_watch v).
+Proof. exact db_apply_writes_notify. Qed.
+Print Assumptions C06_db_apply_writes_notify.
+
+Theorem C06_db_good_reachable : forall ntab actors sched, wf_system ntab actors -> Good ntab (reach ntab actors sched).
+Proof. exact Good_reachable. Qed.
+Print Assumptions C06_db_good_reachable.
+
+(* the queue is carried unchanged to the notify micro-step (own steps root lock / root store / root unlock; steps of other
+   actors do not touch the actor), which closes exactly it *)
+Theorem C06_db_notify_queue_carried_and_closed : forall s i a tabs wr c rg dn,
+  nth_error (s_actors s) i = Some a -> a_kind a = KWriter tabs wr c rg dn ->
+  (a_pc a = PCommitIdx \/ a_pc a = PRootLocked \/ a_pc a = PRootStored ->
+   exists a', nth_error (s_actors (DB.Model.step s i)) i = Some a' /\ a_notify a' = a_notify a /\ a_kind a' = a_kind a /\
+              s_closed (DB.Model.step s i) = s_closed s) /\
+  (forall j, i <> j -> nth_error (s_actors (DB.Model.step s j)) i = nth_error (s_actors s) i) /\
+  (a_pc a = PRootUnlocked ->
+   s_closed (DB.Model.step s i) = a_notify a ++ s_closed s /\ s_root (DB.Model.step s i) = s_root s).
+Proof.
+  intros s i a tabs wr c rg dn Ha Hk. split; [|split].
+  - exact (a_notify_carried s i a tabs wr c rg dn Ha Hk).
+  - intros j Hne. exact (other_step_keeps_actor s i j Hne).
+  - exact (notify_step_closes s i a tabs wr c rg dn Ha Hk).
+Qed.
+Print Assumptions C06_db_notify_queue_carried_and_closed.
+
+(* (3) BOTH SIDES. A reachable DB state; a: a committing writer about to apply its writes; t: a table it has locked; v: t's
+   version in the current root, represented by the committed tree T of t's primary index (Rtab v T); ops: the operations of
+   the transaction's part.Txn on T. Under the correspondence "t in writes <-> the part.Txn is dirty": the DB-level notify
+   queue contains tv_watch v IFF the Part-level Notify closes T's root channel IFF t is in `writes`; t's new DB-level
+   version has a fresh channel iff the committed tree has a fresh root channel, and both keep the old channel otherwise. *)
+Theorem C06_table_channel_is_primary_root_channel : forall ntab s i a tabs wr rg dn t v T next ops,
+  Good ntab s -> nth_error (s_actors s) i = Some a ->
+  a_kind a = KWriter tabs wr true rg dn -> a_pc a = PRootLoaded ->
+  In t (a_locks a) -> nth_error (s_root s) t = Some v ->
+  tree_inv T next -> Rtab v T ->
+  (In t wr <-> any_change (abs_tree T) ops = true) ->
+  let xe := fold_left wstep ops (tree_txn T next) in
+  let T' := snd (txn_commit xe) in
+  exists a' e, nth_error (s_actors (DB.Model.step s i)) i = Some a' /\ a_pc a' = PCommitIdx /\
+    nth_error (a_entries a') t = Some e /\
+    (In (tv_watch v) (a_notify a') <-> In (table_chan T) (snd (txn_notify (fst (txn_commit xe))))) /\
+    (In (tv_watch v) (a_notify a') <-> In t wr) /\
+    (In t wr -> (s_nextw s <= tv_watch e)%N /\ tv_watch e <> tv_watch v /\
+                next <= table_chan T' /\ table_chan T' <> table_chan T) /\
+    (~ In t wr -> tv_watch e = tv_watch v /\ table_chan T' = table_chan T /\ Rtab e T').
+Proof. exact table_channel_is_primary_root_channel. Qed.
+Print Assumptions C06_table_channel_is_primary_root_channel.
+
+(* NON-VACUITY: two tables (channels 0, 1); a writer locking both and writing table 1 only, at PRootLoaded after 7 steps;
+   table 1's primary index: the empty tree with root channel 1; its part.Txn inserts one key. The DB-level queue is [1],
+   the new versions' channels are [0; 2] (table 0 keeps its channel); the Part-level Notify closes [1]; the committed tree's
+   root channel is the fresh channel 3. *)
+Example C06_notify_link_nonvacuous :
+  exists a, Good 2 nl_s /\ nth_error (s_actors nl_s) 0 = Some a /\
+    a_kind a = KWriter [0%nat; 1%nat] [1%nat] true [] [] /\ a_pc a = PRootLoaded /\
+    In 1%nat (a_locks a) /\ nth_error (s_root nl_s) 1 = Some (mkV [] 1 None) /\
+    tree_inv nl_T 2 /\ Rtab (mkV [] 1 None) nl_T /\
+    (In 1%nat [1%nat] <-> any_change (abs_tree nl_T) [WIns [1] 10] = true) /\
+    (exists a', nth_error (s_actors (DB.Model.step nl_s 0)) 0 = Some a' /\ a_notify a' = [1] /\
+                map tv_watch (a_entries a') = [0; 2]) /\
+    snd (txn_notify (fst (txn_commit (fold_left wstep [WIns [1] 10] (tree_txn nl_T 2))))) = [1] /\
+    table_chan (snd (txn_commit (fold_left wstep [WIns [1] 10] (tree_txn nl_T 2)))) = 3.
+Proof. exact notify_link_nonvacuous. Qed.
+
+(* and the conclusion obtained FROM the theorem for this instance *)
+Example C06_notify_link_by_theorem :
+  exists a' e, nth_error (s_actors (DB.Model.step nl_s 0)) 0 = Some a' /\
+    nth_error (a_entries a') 1 = Some e /\ In 1 (a_notify a') /\ tv_watch e <> 1.
+Proof.
+  destruct notify_link_nonvacuous as (a & HG & Ha & Hk & Hpc & Hl & Hv & HI & HR & Hc & _).
+  destruct (C06_table_channel_is_primary_root_channel 2 nl_s 0%nat a _ _ _ _ 1%nat _ nl_T 2 [WIns [1] 10]
+              HG Ha Hk Hpc Hl Hv HI HR Hc) as (a' & e & Ha' & _ & He & _ & Hq & Hw & _).
+  exists a', e. split; [exact Ha'|]. split; [exact He|]. split.
+  - apply Hq. now left.
+  - destruct (Hw (or_introl eq_refl)) as (_ & Hne & _). exact Hne.
 Qed.
